@@ -1,32 +1,6 @@
-//! `#[kani::proof]` entry points.  Naming: `<property>_<what>[_<instance>]`; the registry that
-//! maps names to properties, tiers, unwind sets and expectations is /verif/harnesses.py.
-use iroh_docs::verif_incrate as vi;
-use vi::src::KaniSrc;
-
-/// Standard stub set + a thin wrapper calling the in-crate body.
-macro_rules! harness {
-    ($name:ident, $unwind:expr, $body:expr) => {
-        #[kani::proof]
-        #[kani::unwind($unwind)]
-        #[kani::stub(<bytes::Bytes as core::ops::Drop>::drop, crate::env::bytes_drop)]
-        #[kani::stub(<bytes::Bytes as core::clone::Clone>::clone, crate::env::bytes_clone)]
-        #[kani::stub(tracing_core::callsite::DefaultCallsite::interest, crate::env::tracing_interest)]
-        #[kani::stub(tracing::__macro_support::__is_enabled, crate::env::tracing_is_enabled)]
-        #[kani::stub(tracing_core::event::Event::dispatch, crate::env::tracing_dispatch)]
-        #[kani::stub(std::backtrace::Backtrace::capture, crate::env::backtrace_disabled)]
-        fn $name() {
-            let f: fn(&mut KaniSrc) = $body;
-            f(&mut KaniSrc)
-        }
-    };
-}
-
-harness!(c02_bounds_author_prefix_p0_k1, 4, vi::store_fs::bounds_author_prefix::<KaniSrc, 0, 1>);
-harness!(c02_bounds_author_prefix_p1_k1, 4, vi::store_fs::bounds_author_prefix::<KaniSrc, 1, 1>);
-harness!(c02_bounds_author_prefix_p1_k2, 4, vi::store_fs::bounds_author_prefix::<KaniSrc, 1, 2>);
-harness!(c02_bounds_author_prefix_p2_k1, 4, vi::store_fs::bounds_author_prefix::<KaniSrc, 2, 1>);
-harness!(c02_bounds_author_prefix_p2_k2, 4, vi::store_fs::bounds_author_prefix::<KaniSrc, 2, 2>);
-harness!(c02_bounds_author_prefix_p2_k3, 4, vi::store_fs::bounds_author_prefix::<KaniSrc, 2, 3>);
+//! `#[kani::proof]` entry points: generated wrappers (harnesses_gen.rs) around the bodies in
+//! `iroh_docs::verif_incrate`; the registry is /verif/lib/harnesses.py.
+include!("harnesses_gen.rs");
 
 /// Build probe: lets the runner compile /repo + this crate under Kani before the parallel runs.
 #[kani::proof]
